@@ -244,6 +244,35 @@ def gen_case(rng, srv_strings):
 
 # ----------------------------------------------------------------------------- execution
 
+class Tokeniser:
+    """symbolic tokens `<msg>/<sig>/<parsed>` for certificate dicts, with interning shared over one driver line"""
+
+    def __init__(self, gms, srv_strings, sigcache=None):
+        self.gms = gms
+        self.sigcache = {} if sigcache is None else sigcache
+        self.msgid, self.junk, self.pkid = Intern(), Intern(), Intern()
+        for s in srv_strings:
+            self.pkid(s)
+        self.honest = {}
+
+    def learn(self, certs):
+        from allmydata.crypto import ed25519
+        for c in certs:
+            b = bytes.fromhex(c["certificate"])
+            m = c["meta"]
+            if m.get("signer") is not None:
+                for msg in [b] + ([bytes.fromhex(m["sig_of"])] if "sig_of" in m else []):
+                    ck = (m["signer"], msg)
+                    if ck not in self.sigcache:
+                        self.sigcache[ck] = ed25519.sign_data(self.gms[m["signer"]][0], msg)
+                    self.honest[self.sigcache[ck]] = (m["signer"], self.msgid(msg))
+
+    def tok(self, c):
+        b, sig = bytes.fromhex(c["certificate"]), bytes.fromhex(c["signature"])
+        sg = ("s%d_%d" % self.honest[sig]) if sig in self.honest else "j%d" % self.junk(sig)
+        return "%d/%s/%s" % (self.msgid(b), sg, classify(b, self.pkid))
+
+
 def run_case(ctx, case, srv_strings):
     """Run one case on the real verifier; returns (impl_output, driver_line, per-time results)."""
     from allmydata.crypto import ed25519
@@ -489,7 +518,7 @@ def cert_dicts(case, gms, srv_strings, i, v):
     return res
 
 
-def run_history(ctx, case, workdir, lines_b, impl_b, cases_b, direct):
+def run_history(ctx, case, workdir, lines_b, impl_b, cases_b, direct, offers):
     import contextlib
     import io
     from twisted.application import service
@@ -540,6 +569,26 @@ def run_history(ctx, case, workdir, lines_b, impl_b, cases_b, direct):
         return (not keys) or any(c["meta"]["intact"] and c["meta"]["signer"] in keys and c["meta"]["server"] == i and c["meta"]["exp"] > t
                                  for c in certs[(i, v)])
 
+    import base64
+    import hashlib
+    seeds = []
+    for sid in sids:
+        raw = sid[3:].decode("ascii").upper()
+        seeds.append(base64.b32decode(raw + "=" * (-len(raw) % 8)))
+    pref_ids = list(case.get("preferred", []))
+
+    sigcache = {}
+
+    def offer_line(fu, psi, t):
+        tk = Tokeniser(gms, srv_strings, sigcache)
+        for i in range(n):
+            tk.learn(certs[(i, cur[i])])
+        groups = []
+        for i in [sids.index(s.get_serverid()) for s in sb.get_connected_servers()]:
+            groups.append("S %d 1 %s %s" % (i, hashlib.sha1(psi + seeds[i]).hexdigest(), " ".join(tk.tok(c) for c in certs[(i, cur[i])])))
+        return " ".join(("offer %s %s %d a%d %s" % (",".join(map(str, keys)) or "-", ",".join(map(str, pref_ids)) or "-",
+                                                    1 if fu else 0, t, " ".join(groups))).split())
+
     CLOCK[0] = dt_of("a%d" % BASE_US)
     cur = [0] * n
     since = [BASE_US] * n          # when the current server object was created
@@ -568,7 +617,9 @@ def run_history(ctx, case, workdir, lines_b, impl_b, cases_b, direct):
                               dict(case, at={"event": ei, "t": t, "server": i}), "upload-permitted-wrong:" + ("granted" if got else "denied"))
         else:
             fu = bool(ev[1])
-            offered = set(sids.index(s.get_serverid()) for s in sb.get_servers_for_psi(bytes.fromhex(ev[2]), for_upload=fu))
+            olist = [sids.index(s.get_serverid()) for s in sb.get_servers_for_psi(bytes.fromhex(ev[2]), for_upload=fu)]
+            offered = set(olist)
+            offers.append((offer_line(fu, bytes.fromhex(ev[2]), t), ",".join(map(str, olist)) or "-", dict(case, at={"event": ei, "t": t})))
             ctx.count("broker-query:for_upload=%d" % fu)
             for i in range(n):
                 v = cur[i]
@@ -642,19 +693,24 @@ def run(ctx):
         hrng = ctx.subrng("histories")
         histories = history_corpus() + [gen_history(hrng) for _ in range(ctx.budget(150, 2500))]
     # (2) broker histories on the virtual clock
-    lines_b, impl_b, cases_b, direct = [], [], [], []
+    lines_b, impl_b, cases_b, direct, offers = [], [], [], [], []
     workdir = os.path.join(os.path.dirname(os.path.dirname(os.path.dirname(os.path.abspath(__file__)))), ".work")
     real_clock = gm_mod.current_datetime_with_zone
     gm_mod.current_datetime_with_zone = lambda: CLOCK[0]
     try:
         for h in histories:
-            run_history(ctx, h, workdir, lines_b, impl_b, cases_b, direct)
+            run_history(ctx, h, workdir, lines_b, impl_b, cases_b, direct, offers)
     finally:
         gm_mod.current_datetime_with_zone = real_clock
     model_b = ctx.model(lines_b)
     if model_b is not None:
         model_b = [m.split(";", 2)[2] if m.count(";") >= 2 else m for m in model_b]
     ctx.compare("StorageFarmBroker.get_servers_for_psi(for_upload=True) membership over a history vs permitted(t) of the model", cases_b, impl_b, model_b)
+    model_o = ctx.model([o[0] for o in offers])
+    ctx.compare("get_servers_for_psi on the long-lived broker at each instant vs serversAt (C32 selection composed with the C33 verifier)",
+                [o[2] for o in offers], [o[1] for o in offers], model_o)
+    if offers:
+        ctx.sample({"offer-line": offers[len(offers) // 2][0][:500], "impl": offers[len(offers) // 2][1]})
     model_d = ctx.model([d[1] for d in direct])
     ctx.compare("create_grid_manager_verifier on the certificate sets and instants of the broker histories",
                 [d[0] for d in direct], [d[2] for d in direct], model_d)
